@@ -1026,6 +1026,9 @@ func init() {
 // ---------- Impl ----------
 
 func implRegistry(c Case) ImplResult {
+	if c.Op == "sharedslice" {
+		return implSharedSlice(c)
+	}
 	var r ImplResult
 	switch c.Op {
 	case "defaults":
@@ -1625,6 +1628,28 @@ func genRegistry(tier string, rng *RNG, emit func(Case)) {
 		}
 	}
 
+	// ----- block parsers triggered by bytes >= 0x80 (a dispatch table indexed by a byte has 256 entries) next to a trigger-less
+	// probe and to the paragraph parser (priority 1000, trigger-less): priorities below, between and above -----
+	hiDocs := [][]lineTok{{{0, 0xe2}, {0, 'a'}, {0, 0x80}, {0, 0xff}}, {{2, 0xc3}, {0, 0xe2}, {0, '*'}}}
+	for _, trig := range []string{"e2", "80", "ff", "c3e2", "2ae2"} {
+		for _, pr := range []int{50, 950, 1050, 1500} {
+			for _, fr := range []int{40, 960, 1040, 1600} {
+				for ci, car := range carriers {
+					ps := []regTok{{'B', 1, pr, car, trig, "11"}, {'B', 2, fr, carriers[(ci+1)%3], "n", "11"}}
+					for di, d := range hiDocs {
+						emit(Case{Op: "block", Args: []string{regsArg(withBuiltins('B', ps)), linesArg(d), scriptArg(map[int]string{109: "2222", 1: []string{"0000", "1010"}[di], 2: "0000"})}})
+						emit(Case{Op: "block", Args: []string{regsArg(withBuiltins('B', ps)), linesArg(d), scriptArg(map[int]string{109: "2222", 2: "0101"})}})
+					}
+				}
+			}
+		}
+	}
+	// ----- option slices shared between two renderers (oracle only): `WithNodeRenderers(shared...)` handed to two renderers, each
+	// with one more registration of its own; a constructor that adopts the caller's slice lets them overwrite each other -----
+	for v := 0; v < 12; v++ {
+		emit(Case{Op: "sharedslice", Args: []string{strconv.Itoa(v)}})
+	}
+
 	// ----- ONE object registered twice with different priorities, a competitor in between (the registration that
 	// counts is the one with the smaller priority value, whatever the registration order and the carriers) -----
 	for ord := 0; ord < 6; ord++ {
@@ -1941,4 +1966,106 @@ func genRegistry(tier string, rng *RNG, emit func(Case)) {
 			emit(Case{Op: "real", Args: []string{regsArg(probes), strconv.Itoa(rng.Intn(len(realDocs))), scriptArg(sc)}})
 		}
 	}
+}
+
+
+// ---------- op `sharedslice` (oracle only): two renderers built from ONE slice of prioritized node renderers that has spare
+// capacity, each with one more registration of its own, in both construction orders and with a use of the first before the
+// second is built. Each renderer must behave exactly like a renderer built from private copies of the same registrations. ----------
+
+type ssRenderer struct {
+	id    int
+	kinds []ast.NodeKind
+	log   *[]string
+}
+
+func (r *ssRenderer) RegisterFuncs(reg renderer.NodeRendererFuncRegisterer) {
+	for _, k := range r.kinds {
+		k := k
+		reg.Register(k, func(w util.BufWriter, source []byte, n ast.Node, entering bool) (ast.WalkStatus, error) {
+			if entering {
+				*r.log = append(*r.log, fmt.Sprintf("%d.%d", r.id, int(k)))
+			}
+			return ast.WalkContinue, nil
+		})
+	}
+}
+
+func implSharedSlice(c Case) ImplResult {
+	res := ImplResult{NoModel: true}
+	v, _ := strconv.Atoi(c.Args[0])
+	kP, kE, kT := ast.KindParagraph, ast.KindEmphasis, ast.KindText
+	mk := func(log *[]string, id int, ks ...ast.NodeKind) *ssRenderer { return &ssRenderer{id: id, kinds: ks, log: log} }
+	tree := func() ast.Node {
+		d := ast.NewDocument()
+		p := ast.NewParagraph()
+		e := ast.NewEmphasis(1)
+		e.AppendChild(e, ast.NewText())
+		p.AppendChild(p, e)
+		d.AppendChild(d, p)
+		return d
+	}
+	run := func(r renderer.Renderer) string {
+		var b bytes.Buffer
+		_ = r.Render(&b, nil, tree())
+		return ""
+	}
+	// the shared base: renderer 1 for Paragraph+Text at 500, renderer 2 for Emphasis at 600, in a slice with spare capacity
+	build := func(shared bool, useFirstEarly bool, order int) (la, lb []string) {
+		var logA, logB []string
+		baseA := []util.PrioritizedValue{util.Prioritized(mk(&logA, 1, kP, kT, ast.KindDocument), 500), util.Prioritized(mk(&logA, 2, kE), 600)}
+		baseB := []util.PrioritizedValue{util.Prioritized(mk(&logB, 1, kP, kT, ast.KindDocument), 500), util.Prioritized(mk(&logB, 2, kE), 600)}
+		sa, sb := baseA, baseB
+		if shared {
+			// one backing array with spare capacity; the two loggers differ only in where they write, so share the VALUES of A
+			// and let B's log be fed by the same objects through a tee
+			s := make([]util.PrioritizedValue, 0, 8)
+			s = append(s, baseA...)
+			sa, sb = s, s
+			logB = nil
+		}
+		extraA := util.Prioritized(mk(&logA, 3, kE), 100+v) // overrides Emphasis in A only
+		extraBlog := &logB
+		if shared {
+			extraBlog = &logA
+		}
+		extraB := util.Prioritized(mk(extraBlog, 4, kP), 100+v) // overrides Paragraph in B only
+		var ra, rb renderer.Renderer
+		mkA := func() { ra = renderer.NewRenderer(renderer.WithNodeRenderers(sa...), renderer.WithNodeRenderers(extraA)) }
+		mkB := func() { rb = renderer.NewRenderer(renderer.WithNodeRenderers(sb...), renderer.WithNodeRenderers(extraB)) }
+		if order == 0 {
+			mkA()
+			if useFirstEarly {
+				run(ra)
+				logA = nil
+			}
+			mkB()
+		} else {
+			mkB()
+			if useFirstEarly {
+				run(rb)
+				logA, logB = nil, nil
+			}
+			mkA()
+		}
+		run(ra)
+		la = append([]string{}, logA...)
+		logA, logB = nil, nil
+		run(rb)
+		if shared {
+			lb = append([]string{}, logA...)
+		} else {
+			lb = append([]string{}, logB...)
+		}
+		return
+	}
+	early, order := v%2 == 1, (v/2)%2
+	wa, wb := build(false, early, order)
+	ga, gb := build(true, early, order)
+	if strings.Join(ga, ",") != strings.Join(wa, ",") || strings.Join(gb, ",") != strings.Join(wb, ",") {
+		res.Fails = append(res.Fails, OracleFail{"C20", "renderer-registrations-shared-slice", fmt.Sprintf("two renderers built from one option slice with spare capacity (variant %d): first renders with functions %v (private copies: %v), second %v (private copies: %v) - a registration of one renderer took effect in the other", v, ga, wa, gb, wb)})
+	}
+	res.Out = strings.Join(ga, ",") + "|" + strings.Join(gb, ",")
+	res.Key = res.Out
+	return res
 }
